@@ -7,6 +7,7 @@ import (
 	"flag"
 	"fmt"
 	"math"
+	"sort"
 	"strings"
 
 	"github.com/benoitkugler/webrender/css/parser"
@@ -425,6 +426,52 @@ func c08Shorthands(s *c08Scn, line []byte, out *drv.Out) {
 				return
 			}
 		}
+	case "background":
+		var t struct {
+			Layers []struct {
+				Img  string `json:"img"`
+				Pos  string `json:"pos"`
+				Size string `json:"size"`
+			} `json:"layers"`
+		}
+		json.Unmarshal(sc.S, &t)
+		var short, imgs, poss, sizes []string
+		for _, l := range t.Layers {
+			part := "url(http://verif.test/" + l.Img + ".png)"
+			imgs = append(imgs, part)
+			p, z := l.Pos, l.Size
+			if p != "" {
+				part += " " + p
+				if z != "" {
+					part += " / " + z
+				}
+			}
+			if p == "" {
+				p = "0% 0%"
+			}
+			if z == "" {
+				z = "auto"
+			}
+			poss = append(poss, p)
+			sizes = append(sizes, z)
+			short = append(short, part)
+		}
+		a := "background:" + strings.Join(short, ", ")
+		b := "background-image:" + strings.Join(imgs, ", ") + ";background-position:" + strings.Join(poss, ", ") + ";background-size:" + strings.Join(sizes, ", ")
+		pick := func(decl string) string {
+			var parts []string
+			for _, d := range validation.PreprocessDeclarations("http://verif.test/", parser.ParseBlocksContentsString(decl)) {
+				n := d.Name.String()
+				if n == "background-image" || n == "background-position" || n == "background-size" {
+					parts = append(parts, fmt.Sprintf("%s=%v", n, d.Value))
+				}
+			}
+			sort.Strings(parts)
+			return strings.Join(parts, ";")
+		}
+		if ga, gb := pick(a), pick(b); ga != gb || ga == "" {
+			out.Disagree("shorthand:background:layers", fmt.Sprintf("%s expands to %s, the longhands %s give %s", a, ga, b, gb), map[string]interface{}{"shorthand": a, "longhands": b})
+		}
 	case "flex":
 		var t struct {
 			T string `json:"t"`
@@ -472,6 +519,12 @@ var c08SpellDecls = map[string]c08Spell{
 	"angle":      {"transform", "rotate(90deg)"},
 	"resolution": {"image-resolution", "2dppx"},
 	"em":         {"text-indent", "2em"},
+	// function names are ASCII case-insensitive, also where the name selects a variant of the value
+	"gradient-fn": {"background-image", "repeating-linear-gradient(to right, red, blue 10px)"},
+	"radial-fn":   {"background-image", "repeating-radial-gradient(circle, red, blue 10px)"},
+	"counter-fn":  {"content", "counter(c, upper-roman) counters(d, \".\")"},
+	"attr-fn":     {"content", "attr(title) leader(dotted)"},
+	"steps-fn":    {"transform", "translate(1px, 2px) scale(2) skewx(10deg)"},
 }
 
 func c08Variant(d c08Spell, variant string) string {
@@ -490,7 +543,7 @@ func c08Variant(d c08Spell, variant string) string {
 	case "upper-unit":
 		value = up(value, "px", "fr", "deg", "dppx", "em")
 	case "upper-function":
-		value = up(value, "rgb(", "url(", "rotate(")
+		value = up(value, "rgb(", "url(", "rotate(", "repeating-linear-gradient(", "repeating-radial-gradient(", "counter(", "counters(", "attr(", "leader(", "translate(", "scale(", "skewx(")
 	case "comment-between":
 		value = "/*c*/" + strings.ReplaceAll(value, " ", "/*c*/ /*c*/") + "/*c*/"
 	case "extra-space":
